@@ -8,16 +8,39 @@ def drainItem (b : Body) : Item :=
   | .value v :: _ => .val v
   | _ => .endMarker
 
-/-- ... and what is left of the body afterwards -/
+/-- ... what is left of the body afterwards -/
 def drainRest (b : Body) : Body :=
   match skipAwaits b with
   | .value _ :: r => r
+  | .valueEnd :: r => r
   | _ => []
 
-theorem skipAwaits_cases (b : Body) : skipAwaits b = [] ∨ ∃ v r, skipAwaits b = .value v :: r := by
+/-- ... and whether it ran the underlying generator off its end -/
+def drainStop (b : Body) : Bool := (skipAwaits b).isEmpty
+
+theorem skipAwaits_cases (b : Body) :
+    skipAwaits b = [] ∨ (∃ v r, skipAwaits b = .value v :: r) ∨ (∃ r, skipAwaits b = .valueEnd :: r) := by
   induction b with
   | nil => simp [skipAwaits]
   | cons x r ih => cases x <;> simp [skipAwaits, ih]
+
+theorem noMarker_skipAwaits (b : Body) : noMarker (skipAwaits b) = noMarker b := by
+  induction b with
+  | nil => rfl
+  | cons x r ih => cases x <;> simp [skipAwaits, noMarker, ih]
+
+/-- without a marker payload a task returns END_OF_GENERATOR only by running off the end of the body -/
+theorem skipAwaits_cases' (b : Body) (hm : noMarker b = true) :
+    skipAwaits b = [] ∨ ∃ v r, skipAwaits b = .value v :: r := by
+  rcases skipAwaits_cases b with h | h | ⟨r, h⟩
+  · exact .inl h
+  · exact .inr h
+  · have := noMarker_skipAwaits b; rw [h, hm] at this; simp [noMarker] at this
+
+theorem drainStop_eq (b : Body) (hm : noMarker b = true) : drainStop b = (drainItem b == .endMarker) := by
+  rcases skipAwaits_cases' b hm with h | ⟨v, r, h⟩
+  · simp [drainStop, drainItem, h]
+  · simp [drainStop, drainItem, h]
 
 theorem drainRest_length_le (b : Body) : (drainRest b).length ≤ b.length := by
   induction b with
@@ -26,30 +49,51 @@ theorem drainRest_length_le (b : Body) : (drainRest b).length ≤ b.length := by
     cases x with
     | await bb => simp only [drainRest, skipAwaits] at ih ⊢; simp only [List.length_cons]; omega
     | value v => simp [drainRest, skipAwaits]
+    | valueEnd => simp [drainRest, skipAwaits]
+
+theorem noMarker_drainRest (b : Body) (hm : noMarker b = true) : noMarker (drainRest b) = true := by
+  induction b with
+  | nil => rfl
+  | cons x r ih =>
+    cases x with
+    | await bb => simp only [drainRest, skipAwaits] at ih ⊢; exact ih (by simpa [noMarker] using hm)
+    | value v => simpa [drainRest, skipAwaits, noMarker] using hm
+    | valueEnd => simp [noMarker] at hm
 
 theorem values_skipAwaits (b : Body) : values (skipAwaits b) = values b := by
   induction b with
   | nil => rfl
   | cons x r ih => cases x <;> simp [skipAwaits, values, ih]
 
+/-- for a body without marker payloads `values` are all the payloads -/
+theorem payloads_eq_values (b : Body) (hm : noMarker b = true) : payloads b = (values b).map .val := by
+  induction b with
+  | nil => rfl
+  | cons x r ih =>
+    cases x with
+    | await bb => simpa [payloads, values] using ih (by simpa [noMarker] using hm)
+    | value v => simpa [payloads, values] using ih (by simpa [noMarker] using hm)
+    | valueEnd => simp [noMarker] at hm
+
 theorem sendInnerLoop_spec (rest : Body) : ∀ (fuel pulled : Nat) (stopped : Bool) (lastTask : Option LastRef)
     (futs : List Fut), rest.length < fuel →
     sendInnerLoop fuel ⟨rest, pulled, stopped, lastTask, futs⟩ =
       (⟨drainRest rest, pulled + (rest.length - (drainRest rest).length),
-        stopped || drainItem rest == .endMarker, lastTask, futs⟩, drainItem rest) := by
+        stopped || drainStop rest, lastTask, futs⟩, drainItem rest) := by
   induction rest with
   | nil =>
     intro fuel pulled stopped lastTask futs h
     cases fuel with
     | zero => simp at h
-    | succ f => simp [sendInnerLoop, getOneValue, drainRest, drainItem, skipAwaits]
+    | succ f => simp [sendInnerLoop, getOneValue, drainRest, drainItem, drainStop, skipAwaits]
   | cons x r ih =>
     intro fuel pulled stopped lastTask futs h
     cases fuel with
     | zero => simp at h
     | succ f =>
       cases x with
-      | value v => simp [sendInnerLoop, getOneValue, drainRest, drainItem, skipAwaits]
+      | value v => simp [sendInnerLoop, getOneValue, drainRest, drainItem, drainStop, skipAwaits]
+      | valueEnd => simp [sendInnerLoop, getOneValue, drainRest, drainItem, drainStop, skipAwaits]
       | await bb =>
         have hl := drainRest_length_le r
         simp only [List.length_cons] at h
@@ -57,14 +101,15 @@ theorem sendInnerLoop_spec (rest : Body) : ∀ (fuel pulled : Nat) (stopped : Bo
         rw [ih f (pulled + 1) stopped lastTask futs (by omega)]
         have e1 : drainRest (.await bb :: r) = drainRest r := by simp [drainRest, skipAwaits]
         have e2 : drainItem (.await bb :: r) = drainItem r := by simp [drainItem, skipAwaits]
-        simp only [e1, e2, List.length_cons]
+        have e3 : drainStop (.await bb :: r) = drainStop r := by simp [drainStop, skipAwaits]
+        simp only [e1, e2, e3, List.length_cons]
         congr 2
         omega
 
 theorem sendInner_spec (rest : Body) (pulled : Nat) (stopped : Bool) (lastTask : Option LastRef) (futs : List Fut) :
     sendInner ⟨rest, pulled, stopped, lastTask, futs⟩ =
       (⟨drainRest rest, pulled + (rest.length - (drainRest rest).length),
-        stopped || drainItem rest == .endMarker, lastTask, futs⟩, drainItem rest) :=
+        stopped || drainStop rest, lastTask, futs⟩, drainItem rest) :=
   sendInnerLoop_spec rest _ pulled stopped lastTask futs (Nat.lt_succ_self _)
 
 theorem sendInner_await (bb : Bool) (r : Body) (pulled : Nat) (stopped : Bool) (lt : Option LastRef) (futs : List Fut) :
@@ -94,6 +139,7 @@ theorem startLoop_spec (rest : Body) : ∀ (fuel pulled : Nat) (stopped : Bool) 
       simp only [List.length_cons] at h
       cases x with
       | value v => simp [startLoop, sendInner, sendInnerLoop, getOneValue]
+      | valueEnd => simp [startLoop, sendInner, sendInnerLoop, getOneValue]
       | await bb =>
         rw [sendInner_await]
         cases bb with
@@ -124,6 +170,39 @@ theorem startTask_spec (b : Bool) (rest : Body) (pulled : Nat) (stopped : Bool) 
   | false =>
     simpa [startTask] using startLoop_spec rest (rest.length + 1) pulled stopped lt futs (Nat.lt_succ_self _)
 
+/-- a started task is parked (cannot be computed before a batch flush) iff one of the awaits it consumes before
+    its Value - or the end of the body - needs a flush -/
+theorem startLoop_parks (rest : Body) : ∀ (fuel pulled : Nat) (stopped : Bool) (lt : Option LastRef)
+    (futs : List Fut), rest.length < fuel →
+    ((startLoop fuel ⟨rest, pulled, stopped, lt, futs⟩).2 == none) = leadBlock rest := by
+  induction rest with
+  | nil =>
+    intro fuel pulled stopped lt futs h
+    cases fuel with
+    | zero => simp at h
+    | succ f => simp [startLoop, getOneValue, leadBlock]
+  | cons x r ih =>
+    intro fuel pulled stopped lt futs h
+    cases fuel with
+    | zero => simp at h
+    | succ f =>
+      simp only [List.length_cons] at h
+      cases x with
+      | value v => simp [startLoop, getOneValue, leadBlock]
+      | valueEnd => simp [startLoop, getOneValue, leadBlock]
+      | await bb =>
+        cases bb with
+        | true => simp [startLoop, getOneValue, leadBlock]
+        | false =>
+          simp only [startLoop, getOneValue, leadBlock, Bool.false_or]
+          exact ih f (pulled + 1) stopped lt futs (by omega)
+
+theorem startTask_parks (s : St) (b : Bool) : ((startTask s b).2 == none) = (b || leadBlock s.rest) := by
+  obtain ⟨rest, pulled, stopped, lt, futs⟩ := s
+  cases b with
+  | true => simp [startTask]
+  | false => simpa [startTask] using startLoop_parks rest (rest.length + 1) pulled stopped lt futs (Nat.lt_succ_self _)
+
 /-- `blocked` only looks at `last_task` and the futures -/
 def blockedBy (lt : Option LastRef) (futs : List Fut) : Bool :=
   match lt with
@@ -132,19 +211,22 @@ def blockedBy (lt : Option LastRef) (futs : List Fut) : Bool :=
 
 theorem blocked_eq (s : St) : s.blocked = blockedBy s.lastTask s.futs := rfl
 
-theorem drainItem_end (b : Body) (h : drainItem b = .endMarker) : drainRest b = [] ∧ values b = [] := by
+theorem drainItem_end (b : Body) (hm : noMarker b = true) (h : drainItem b = .endMarker) :
+    drainRest b = [] ∧ values b = [] ∧ drainStop b = true := by
   rw [← values_skipAwaits b]
-  rcases skipAwaits_cases b with h0 | ⟨v, r, h1⟩
-  · simp [drainRest, h0, values]
+  rcases skipAwaits_cases' b hm with h0 | ⟨v, r, h1⟩
+  · simp [drainRest, drainStop, h0, values]
   · simp [drainItem, h1] at h
 
-theorem drainItem_val (b : Body) (v : Nat) (h : drainItem b = .val v) : values b = v :: values (drainRest b) := by
+theorem drainItem_val (b : Body) (v : Nat) (h : drainItem b = .val v) :
+    values b = v :: values (drainRest b) ∧ drainStop b = false := by
   rw [← values_skipAwaits b]
-  rcases skipAwaits_cases b with h0 | ⟨w, r, h1⟩
+  rcases skipAwaits_cases b with h0 | ⟨w, r, h1⟩ | ⟨r, h1⟩
   · simp [drainItem, h0] at h
-  · simp [drainItem, h1] at h; simp [drainRest, h1, values, h]
+  · simp [drainItem, h1] at h; simp [drainRest, drainStop, h1, values, h]
+  · simp [drainItem, h1] at h
 
-theorem dropValues_succ_await (n : Nat) (b : Body) :
+theorem dropValues_succ_await (n : Nat) (b : Body) (hm : noMarker b = true) :
     dropValues (n + 1) b = match drainItem b with | .val _ => dropValues n (drainRest b) | .endMarker => [] := by
   induction b with
   | nil => simp [dropValues, drainItem, skipAwaits]
@@ -153,8 +235,9 @@ theorem dropValues_succ_await (n : Nat) (b : Body) :
     | await bb =>
       have e1 : drainRest (.await bb :: r) = drainRest r := by simp [drainRest, skipAwaits]
       have e2 : drainItem (.await bb :: r) = drainItem r := by simp [drainItem, skipAwaits]
-      simp only [dropValues, e1, e2, ih]
+      simp only [dropValues, e1, e2, ih (by simpa [noMarker] using hm)]
     | value v => simp [dropValues, drainItem, drainRest, skipAwaits]
+    | valueEnd => simp [noMarker] at hm
 
 theorem dropValues_length_le (n : Nat) (b : Body) : (dropValues n b).length ≤ b.length := by
   induction b generalizing n with
@@ -166,6 +249,19 @@ theorem dropValues_length_le (n : Nat) (b : Body) : (dropValues n b).length ≤ 
       cases x with
       | await bb => have := ih (m + 1); simp only [dropValues, List.length_cons]; omega
       | value v => have := ih m; simp only [dropValues, List.length_cons]; omega
+      | valueEnd => have := ih (m + 1); simp only [dropValues, List.length_cons]; omega
+
+theorem noMarker_dropValues (n : Nat) (b : Body) (hm : noMarker b = true) : noMarker (dropValues n b) = true := by
+  induction b generalizing n with
+  | nil => cases n <;> simp [dropValues, noMarker]
+  | cons x r ih =>
+    cases n with
+    | zero => simpa [dropValues] using hm
+    | succ m =>
+      cases x with
+      | await bb => simp only [dropValues]; exact ih (m + 1) (by simpa [noMarker] using hm)
+      | value v => simp only [dropValues]; exact ih m (by simpa [noMarker] using hm)
+      | valueEnd => simp [noMarker] at hm
 
 /-- one loop trip from a state in which the previous task is computed -/
 theorem pull_nil (pulled : Nat) (stopped : Bool) (lt : Option LastRef) (futs : List Fut)
@@ -181,7 +277,7 @@ theorem pull_value (v : Nat) (r : Body) (pulled : Nat) (lt : Option LastRef) (fu
 theorem pull_await (bb : Bool) (r : Body) (pulled : Nat) (lt : Option LastRef) (futs : List Fut)
     (hb : blockedBy lt futs = false) :
     pull ⟨.await bb :: r, pulled, false, lt, futs⟩ =
-      (⟨drainRest r, pulled + 1 + (r.length - (drainRest r).length), drainItem r == .endMarker,
+      (⟨drainRest r, pulled + 1 + (r.length - (drainRest r).length), drainStop r,
         some .internal, futs⟩, .ok (drainItem r)) := by
   simp [pull, send, blocked_eq, hb, getOneValue, sendInner_spec]
 
@@ -192,16 +288,16 @@ theorem blockedBy_internal (futs : List Fut) : blockedBy (some .internal) futs =
 
 /-- `list_of_generator` from a state in which the previous task is computed: all remaining Values, generator exhausted -/
 theorem listLoop_spec : ∀ (fuel : Nat) (rest : Body) (pulled : Nat) (stopped : Bool) (lt : Option LastRef)
-    (futs : List Fut) (data : List Item),
+    (futs : List Fut) (data : List Item), noMarker rest = true →
     blockedBy lt futs = false → (stopped = true → rest = []) → rest.length < fuel →
     ∃ lt' p', listLoop fuel ⟨rest, pulled, stopped, lt, futs⟩ data =
         (⟨[], p', true, lt', futs⟩, .lst (data ++ (values rest).map .val)) ∧
       p' = pulled + rest.length ∧ blockedBy lt' futs = false := by
   intro fuel
   induction fuel with
-  | zero => intro rest _ _ _ _ _ _ _ h; simp at h
+  | zero => intro rest _ _ _ _ _ _ _ _ h; simp at h
   | succ f ih =>
-    intro rest pulled stopped lt futs data hb hs hf
+    intro rest pulled stopped lt futs data hm hb hs hf
     cases rest with
     | nil =>
       refine ⟨lt, pulled, ?_, rfl, hb⟩
@@ -211,28 +307,32 @@ theorem listLoop_spec : ∀ (fuel : Nat) (rest : Body) (pulled : Nat) (stopped :
       subst hst
       simp only [List.length_cons] at hf
       cases x with
+      | valueEnd => simp [noMarker] at hm
       | value v =>
-        obtain ⟨lt', p', h1, hp, h2⟩ := ih r (pulled + 1) false lt futs (data ++ [.val v]) hb (by simp) (by omega)
+        have hmr : noMarker r = true := by simpa [noMarker] using hm
+        obtain ⟨lt', p', h1, hp, h2⟩ := ih r (pulled + 1) false lt futs (data ++ [.val v]) hmr hb (by simp) (by omega)
         refine ⟨lt', p', ?_, by simp only [List.length_cons]; omega, h2⟩
         simp only [listLoop, pull_value _ _ _ _ _ hb, h1, values]
         simp
       | await bb =>
+        have hmr : noMarker r = true := by simpa [noMarker] using hm
         have hl := drainRest_length_le r
         cases hd : drainItem r with
         | endMarker =>
-          obtain ⟨hr, hv⟩ := drainItem_end r hd
+          obtain ⟨hr, hv, hstop⟩ := drainItem_end r hmr hd
           obtain ⟨lt', p', h1, hp, h2⟩ := ih [] (pulled + 1 + (r.length - (drainRest r).length)) true
-            (some .internal) futs data (blockedBy_internal futs) (by simp) (by simp; omega)
+            (some .internal) futs data rfl (blockedBy_internal futs) (by simp) (by simp; omega)
           refine ⟨lt', p', ?_, by simp only [hr, List.length_cons, List.length_nil] at hp ⊢; omega, h2⟩
-          simp only [listLoop, pull_await _ _ _ _ _ hb, hd, hr] at h1 ⊢
-          simp only [show ((Item.endMarker == Item.endMarker) = true) from rfl, h1, values, hv]
+          simp only [listLoop, pull_await _ _ _ _ _ hb, hd, hr, hstop] at h1 ⊢
+          simp only [h1, values, hv]
         | val v =>
-          have hv := drainItem_val r v hd
+          obtain ⟨hv, hstop⟩ := drainItem_val r v hd
           obtain ⟨lt', p', h1, hp, h2⟩ := ih (drainRest r) (pulled + 1 + (r.length - (drainRest r).length)) false
-            (some .internal) futs (data ++ [.val v]) (blockedBy_internal futs) (by simp) (by omega)
+            (some .internal) futs (data ++ [.val v]) (noMarker_drainRest r hmr) (blockedBy_internal futs) (by simp)
+            (by omega)
           refine ⟨lt', p', ?_, by simp only [List.length_cons]; omega, h2⟩
-          simp only [listLoop, pull_await _ _ _ _ _ hb, hd]
-          simp only [show ((Item.val v == Item.endMarker) = false) from rfl, h1, values, hv]
+          simp only [listLoop, pull_await _ _ _ _ _ hb, hd, hstop]
+          simp only [h1, values, hv]
           simp
 
 /-- the test `i == n - 1` on Python integers -/
@@ -249,7 +349,7 @@ theorem takeLoop_nil (fuel n i pulled : Nat) (stopped : Bool) (lt : Option LastR
 /-- while the `enumerate` index is below `n`: `take_first` delivers the next `n - i` Values and stops right
     after the last of them -/
 theorem takeLoop_lt : ∀ (fuel : Nat) (rest : Body) (n i m pulled : Nat) (stopped : Bool) (lt : Option LastRef)
-    (futs : List Fut) (ret : List Item),
+    (futs : List Fut) (ret : List Item), noMarker rest = true →
     n = i + (m + 1) → blockedBy lt futs = false → (stopped = true → rest = []) → rest.length < fuel →
     ∃ lt' p', takeLoop fuel n i ⟨rest, pulled, stopped, lt, futs⟩ ret =
         (⟨dropValues (m + 1) rest, p', stopped || decide ((values rest).length < m + 1), lt', futs⟩,
@@ -257,9 +357,9 @@ theorem takeLoop_lt : ∀ (fuel : Nat) (rest : Body) (n i m pulled : Nat) (stopp
       p' + (dropValues (m + 1) rest).length = pulled + rest.length ∧ blockedBy lt' futs = false := by
   intro fuel
   induction fuel with
-  | zero => intro rest _ _ _ _ _ _ _ _ _ _ _ h; simp at h
+  | zero => intro rest _ _ _ _ _ _ _ _ _ _ _ _ h; simp at h
   | succ f ih =>
-    intro rest n i m pulled stopped lt futs ret hn hb hs hf
+    intro rest n i m pulled stopped lt futs ret hm hn hb hs hf
     have hbt : ((i : Int) == (n : Int) - 1) = decide (m = 0) := by
       rw [breakTest]; by_cases hm : m = 0 <;> simp [hm] <;> omega
     cases rest with
@@ -271,66 +371,71 @@ theorem takeLoop_lt : ∀ (fuel : Nat) (rest : Body) (n i m pulled : Nat) (stopp
       subst hst
       simp only [List.length_cons] at hf
       cases x with
+      | valueEnd => simp [noMarker] at hm
       | value v =>
+        have hmr : noMarker r = true := by simpa [noMarker] using hm
         cases m with
         | zero =>
           refine ⟨lt, pulled + 1, ?_, by simp [dropValues]; omega, hb⟩
           simp [takeLoop, pull_value _ _ _ _ _ hb, hbt, values, dropValues]
         | succ k =>
-          obtain ⟨lt', p', h1, hp, h2⟩ := ih r n (i + 1) k (pulled + 1) false lt futs (ret ++ [.val v]) (by omega) hb
+          obtain ⟨lt', p', h1, hp, h2⟩ := ih r n (i + 1) k (pulled + 1) false lt futs (ret ++ [.val v]) hmr (by omega) hb
             (by simp) (by omega)
           refine ⟨lt', p', ?_, by simp only [dropValues, List.length_cons]; omega, h2⟩
           simp only [takeLoop, pull_value _ _ _ _ _ hb, hbt, h1, values, dropValues]
           simp
       | await bb =>
+        have hmr : noMarker r = true := by simpa [noMarker] using hm
         have hl := drainRest_length_le r
-        have hdv := dropValues_succ_await m r
+        have hdv := dropValues_succ_await m r hmr
         cases hd : drainItem r with
         | endMarker =>
-          obtain ⟨hr, hv⟩ := drainItem_end r hd
+          obtain ⟨hr, hv, hstop⟩ := drainItem_end r hmr hd
           rw [hd] at hdv
           cases f with
           | zero => omega
           | succ f' =>
             refine ⟨some .internal, pulled + 1 + (r.length - (drainRest r).length), ?_,
               by simp only [dropValues, hdv, hr, List.length_cons, List.length_nil]; omega, blockedBy_internal futs⟩
-            simp only [takeLoop, pull_await _ _ _ _ _ hb, hd, hr] at ⊢
-            simp only [show ((Item.endMarker == Item.endMarker) = true) from rfl, values, hv, dropValues, hdv]
+            simp only [takeLoop, pull_await _ _ _ _ _ hb, hd, hr, hstop] at ⊢
+            simp only [values, hv, dropValues, hdv]
             simp [pull_nil _ _ _ _ (blockedBy_internal futs)]
         | val v =>
-          have hv := drainItem_val r v hd
+          obtain ⟨hv, hstop⟩ := drainItem_val r v hd
           rw [hd] at hdv
           cases m with
           | zero =>
             refine ⟨some .internal, pulled + 1 + (r.length - (drainRest r).length), ?_,
               by simp only [dropValues, hdv, List.length_cons] at *; omega, blockedBy_internal futs⟩
-            simp only [takeLoop, pull_await _ _ _ _ _ hb, hd, hbt]
+            simp only [takeLoop, pull_await _ _ _ _ _ hb, hd, hbt, hstop]
             simp [values, hv, dropValues, hdv]
           | succ k =>
             obtain ⟨lt', p', h1, hp, h2⟩ := ih (drainRest r) n (i + 1) k (pulled + 1 + (r.length - (drainRest r).length))
-              false (some .internal) futs (ret ++ [.val v]) (by omega) (blockedBy_internal futs) (by simp) (by omega)
+              false (some .internal) futs (ret ++ [.val v]) (noMarker_drainRest r hmr) (by omega)
+              (blockedBy_internal futs) (by simp) (by omega)
             refine ⟨lt', p', ?_, by simp only [dropValues, hdv, List.length_cons] at *; omega, h2⟩
-            simp only [takeLoop, pull_await _ _ _ _ _ hb, hd, hbt]
-            simp only [show ((Item.val v == Item.endMarker) = false) from rfl, h1, values, hv, dropValues, hdv]
+            simp only [takeLoop, pull_await _ _ _ _ _ hb, hd, hbt, hstop]
+            simp only [h1, values, hv, dropValues, hdv]
             simp
 
 /-! ### the loops as functions of the state -/
 
 theorem listOf_spec (rest : Body) (pulled : Nat) (stopped : Bool) (lt : Option LastRef) (futs : List Fut)
-    (hb : blockedBy lt futs = false) (hw : stopped = true → rest = []) :
+    (hm : noMarker rest = true) (hb : blockedBy lt futs = false) (hw : stopped = true → rest = []) :
     ∃ lt' p', listOf ⟨rest, pulled, stopped, lt, futs⟩ =
         (⟨[], p', true, lt', futs⟩, .lst ((values rest).map .val)) ∧
       p' = pulled + rest.length ∧ blockedBy lt' futs = false := by
-  have := listLoop_spec (rest.length + 1) rest pulled stopped lt futs [] hb hw (Nat.lt_succ_self _)
+  have := listLoop_spec (rest.length + 1) rest pulled stopped lt futs [] hm hb hw (Nat.lt_succ_self _)
   simpa [listOf] using this
 
 theorem takeFirst_spec (rest : Body) (m pulled : Nat) (stopped : Bool) (lt : Option LastRef) (futs : List Fut)
-    (hb : blockedBy lt futs = false) (hw : stopped = true → rest = []) :
+    (hm : noMarker rest = true) (hb : blockedBy lt futs = false) (hw : stopped = true → rest = []) :
     ∃ lt' p', takeFirst ⟨rest, pulled, stopped, lt, futs⟩ (m + 1) =
         (⟨dropValues (m + 1) rest, p', stopped || decide ((values rest).length < m + 1), lt', futs⟩,
           .lst (((values rest).take (m + 1)).map .val)) ∧
       p' + (dropValues (m + 1) rest).length = pulled + rest.length ∧ blockedBy lt' futs = false := by
-  have := takeLoop_lt (rest.length + 1) rest (m + 1) 0 m pulled stopped lt futs [] (by omega) hb hw (Nat.lt_succ_self _)
+  have := takeLoop_lt (rest.length + 1) rest (m + 1) 0 m pulled stopped lt futs [] hm (by omega) hb hw
+    (Nat.lt_succ_self _)
   simpa [takeFirst] using this
 
 /-- `take_first(gen, 0)` returns `[]` and does not touch the generator - in any state -/
@@ -349,10 +454,10 @@ theorem next_blocked (s : St) (hb : s.blocked = true) : next s = (s, .raised .ru
 
 /-! ### the observer simulates the model -/
 
-def Fut.known : Fut → Option Item
-  | .const v => some (.val v)
-  | .pending _ => none
-  | .done r => some r
+def Fut.known : Fut → Known
+  | .const r => .val r
+  | .pending b => .pending b
+  | .done r => .val r
 
 /-- the reference cursor mirrors the generator; at most the task in `last_task` is uncomputed -/
 structure Rel (total : Nat) (w : Watch) (s : St) : Prop where
@@ -361,10 +466,11 @@ structure Rel (total : Nat) (w : Watch) (s : St) : Prop where
   known : w.known = s.futs.map Fut.known
   pos : s.pulled + s.rest.length = total
   wf : s.stopped = true → s.rest = []
+  nm : noMarker s.rest = true
   last : ∀ k b, s.futs[k]? = some (.pending b) → s.lastTask = some (.handle k)
 
-theorem rel_init (b : Body) : Rel b.length (watchInit b) (init b) := by
-  constructor <;> simp [watchInit, init]
+theorem rel_init (b : Body) (hm : noMarker b = true) : Rel b.length (watchInit b) (init b) := by
+  constructor <;> simp [watchInit, init, hm]
 
 theorem noPending_of_unblocked (lt : Option LastRef) (futs : List Fut)
     (hl : ∀ k b, futs[k]? = some (.pending b) → lt = some (.handle k)) (hb : blockedBy lt futs = false) :
@@ -376,7 +482,7 @@ theorem noPending_of_unblocked (lt : Option LastRef) (futs : List Fut)
 
 theorem watch_blocked_eq (lt : Option LastRef) (futs : List Fut)
     (hl : ∀ k b, futs[k]? = some (.pending b) → lt = some (.handle k)) :
-    (futs.map Fut.known).any (· == none) = blockedBy lt futs := by
+    (futs.map Fut.known).any Known.isPending = blockedBy lt futs := by
   cases hb : blockedBy lt futs with
   | false =>
     have hn := noPending_of_unblocked lt futs hl hb
@@ -387,8 +493,8 @@ theorem watch_blocked_eq (lt : Option LastRef) (futs : List Fut)
     obtain ⟨k, hk⟩ := List.getElem?_of_mem hf
     cases f with
     | pending b => exact hn k b hk
-    | const v => simp [Fut.known] at hx; simp [← hx] at hx2
-    | done r => simp [Fut.known] at hx; simp [← hx] at hx2
+    | const v => simp [Fut.known] at hx; simp [← hx, Known.isPending] at hx2
+    | done r => simp [Fut.known] at hx; simp [← hx, Known.isPending] at hx2
   | true =>
     simp only [blockedBy] at hb
     split at hb
@@ -396,7 +502,7 @@ theorem watch_blocked_eq (lt : Option LastRef) (futs : List Fut)
       split at hb
       · rename_i b hk
         simp only [List.any_eq_true, List.mem_map]
-        exact ⟨none, ⟨.pending b, List.mem_of_getElem? hk, rfl⟩, rfl⟩
+        exact ⟨.pending b, ⟨.pending b, List.mem_of_getElem? hk, rfl⟩, rfl⟩
       · simp at hb
     · simp at hb
 
@@ -411,6 +517,7 @@ theorem dropValues_of_short (b : Body) : ∀ n, (values b).length < n → dropVa
       cases x with
       | await bb => simp only [dropValues, values] at hn ⊢; exact ih (m + 1) hn
       | value v => simp only [dropValues, values, List.length_cons] at hn ⊢; exact ih m (by omega)
+      | valueEnd => simp only [dropValues, values] at hn ⊢; exact ih (m + 1) hn
 
 /-- a list of Values does not contain END_OF_GENERATOR -/
 theorem hasMarker_vals (l : List Nat) : Res.hasMarker (.lst (l.map .val)) = false := by
@@ -429,6 +536,21 @@ theorem values_dropValues (b : Body) : ∀ n, values (dropValues n b) = (values 
       cases x with
       | await bb => simp only [dropValues, values]; exact ih (m + 1)
       | value v => simp only [dropValues, values, List.drop_succ_cons]; exact ih m
+      | valueEnd => simp only [dropValues, values]; exact ih (m + 1)
+
+theorem dropValues_dropValues (b : Body) : ∀ n m, dropValues m (dropValues n b) = dropValues (n + m) b := by
+  induction b with
+  | nil => intro n m; cases n <;> cases m <;> simp [dropValues]
+  | cons x r ih =>
+    intro n m
+    cases n with
+    | zero => simp [dropValues]
+    | succ k =>
+      have e : k + 1 + m = (k + m) + 1 := by omega
+      cases x with
+      | await bb => simp only [dropValues, e]; rw [← e]; exact ih (k + 1) m
+      | value v => simp only [dropValues, e]; exact ih k m
+      | valueEnd => simp only [dropValues, e]; rw [← e]; exact ih (k + 1) m
 
 /-- the state `take_first(gen, n)` leaves behind is again one from which the loops can be described -/
 theorem take_wf (b : Body) (n : Nat) (stopped : Bool) (hw : stopped = true → b = []) :
@@ -487,21 +609,39 @@ def chunks (l : List Nat) : List Nat → List (List Nat)
   | [] => []
   | n :: ns => l.take n :: chunks (l.drop n) ns
 
+/-- the state after the calls -/
+def takeManySt (s : St) : List Nat → St
+  | [] => s
+  | n :: ns => takeManySt (takeFirst s n).1 ns
+
+/-- how many Values the calls ask for as long as Values are left: a call that asks for more than there are left
+    runs the generator to its end -/
 theorem takeMany_spec (ns : List Nat) : ∀ (rest : Body) (pulled : Nat) (stopped : Bool)
-    (lt : Option LastRef) (futs : List Fut), blockedBy lt futs = false → (stopped = true → rest = []) →
-    takeMany ⟨rest, pulled, stopped, lt, futs⟩ ns = (chunks (values rest) ns).map (fun c => .lst (c.map .val)) := by
+    (lt : Option LastRef) (futs : List Fut), noMarker rest = true → blockedBy lt futs = false →
+    (stopped = true → rest = []) →
+    takeMany ⟨rest, pulled, stopped, lt, futs⟩ ns = (chunks (values rest) ns).map (fun c => .lst (c.map .val)) ∧
+    (takeManySt ⟨rest, pulled, stopped, lt, futs⟩ ns).rest = dropValues ns.sum rest ∧
+    (takeManySt ⟨rest, pulled, stopped, lt, futs⟩ ns).pulled + (dropValues ns.sum rest).length =
+      pulled + rest.length := by
   induction ns with
-  | nil => intros; rfl
+  | nil => intros; simp [takeMany, chunks, takeManySt, dropValues]
   | cons n ns ih =>
-    intro rest pulled stopped lt futs hb hw
+    intro rest pulled stopped lt futs hm hb hw
     cases n with
     | zero =>
-      simp only [takeMany, chunks, List.map_cons, takeFirst_zero, List.take_zero, List.drop_zero, List.map_nil]
-      rw [ih _ _ _ _ _ hb hw]
+      simp only [takeMany, takeManySt, chunks, List.map_cons, takeFirst_zero, List.take_zero, List.drop_zero,
+        List.map_nil, List.sum_cons, Nat.zero_add]
+      obtain ⟨h1, h2, h3⟩ := ih _ pulled _ lt futs hm hb hw
+      exact ⟨by rw [h1], h2, h3⟩
     | succ m =>
-      obtain ⟨lt', p', e, _, hb'⟩ := takeFirst_spec rest m pulled stopped lt futs hb hw
-      simp only [takeMany, chunks, List.map_cons, e]
-      rw [ih _ _ _ _ _ hb' (take_wf rest (m + 1) stopped hw), values_dropValues]
+      obtain ⟨lt', p', e, hp, hb'⟩ := takeFirst_spec rest m pulled stopped lt futs hm hb hw
+      obtain ⟨h1, h2, h3⟩ := ih _ p' _ lt' futs (noMarker_dropValues (m + 1) rest hm) hb'
+        (take_wf rest (m + 1) stopped hw)
+      have hdd : dropValues ns.sum (dropValues (m + 1) rest) = dropValues (m + 1 + ns.sum) rest :=
+        dropValues_dropValues rest (m + 1) ns.sum
+      simp only [takeMany, takeManySt, chunks, List.map_cons, e, List.sum_cons]
+      rw [hdd] at h2 h3
+      refine ⟨by rw [h1, values_dropValues], h2, by omega⟩
 
 theorem values_wrapAux (b : Body) : ∀ m, values (wrapAux m b) = values b := by
   induction b with
@@ -512,3 +652,83 @@ theorem values_wrapN (k : Nat) (b : Body) : values (wrapN k b) = values b := by
   induction k with
   | zero => rfl
   | succ j ih => simp only [wrapN, wrap, values_wrapAux, ih]
+
+theorem noMarker_wrapAux (b : Body) : ∀ m, noMarker (wrapAux m b) = true := by
+  induction b with
+  | nil => intro m; cases m <;> rfl
+  | cons x r ih => intro m; cases m <;> cases x <;> simp [wrapAux, noMarker, ih]
+
+theorem noMarker_wrapN (k : Nat) (b : Body) (hm : noMarker b = true) : noMarker (wrapN k b) = true := by
+  cases k with
+  | zero => exact hm
+  | succ j => exact noMarker_wrapAux _ false
+
+/-! ### the fuel of the consumer loops is never used up (every state, every body - also with marker payloads) -/
+
+/-- one loop trip either ends the loop with StopIteration / RuntimeError or delivers something and makes progress -/
+theorem pull_cases (s : St) :
+    ((pull s).2 = .error .stopIteration ∨ (pull s).2 = .error .runtimeError) ∨
+    (∃ v, (pull s).2 = .ok v ∧ (pull s).1.rest.length < s.rest.length) := by
+  obtain ⟨rest, pulled, stopped, lt, futs⟩ := s
+  cases hb : blockedBy lt futs with
+  | true => simp [pull, send, blocked_eq, hb]
+  | false =>
+    cases stopped with
+    | true => simp [pull, send, blocked_eq, hb]
+    | false =>
+      cases rest with
+      | nil => simp [pull, send, blocked_eq, hb, getOneValue]
+      | cons x r =>
+        cases x with
+        | value v => simp [pull, send, blocked_eq, hb, getOneValue]
+        | valueEnd => simp [pull, send, blocked_eq, hb, getOneValue]
+        | await bb =>
+          have := drainRest_length_le r
+          right
+          refine ⟨drainItem r, ?_⟩
+          simp [pull, send, blocked_eq, hb, getOneValue, sendInner_spec]
+          omega
+
+theorem listLoop_within_fuel : ∀ (fuel : Nat) (s : St) (data : List Item), s.rest.length < fuel →
+    (listLoop fuel s data).2 ≠ .raised .other := by
+  intro fuel
+  induction fuel with
+  | zero => intro s _ h; simp at h
+  | succ f ih =>
+    intro s data hf
+    simp only [listLoop]
+    rcases pull_cases s with (h | h) | ⟨v, h, hl⟩
+    · cases hp : pull s with
+      | mk s1 r => rw [hp] at h; simp only at h; subst h; simp
+    · cases hp : pull s with
+      | mk s1 r => rw [hp] at h; simp only at h; subst h; simp
+    · cases hp : pull s with
+      | mk s1 r =>
+        rw [hp] at h hl; simp only at h hl; subst h
+        cases v with
+        | endMarker => exact ih s1 data (by omega)
+        | val x => exact ih s1 _ (by omega)
+
+theorem takeLoop_within_fuel : ∀ (fuel n i : Nat) (s : St) (ret : List Item), s.rest.length < fuel →
+    (takeLoop fuel n i s ret).2 ≠ .raised .other := by
+  intro fuel
+  induction fuel with
+  | zero => intro _ _ s _ h; simp at h
+  | succ f ih =>
+    intro n i s ret hf
+    simp only [takeLoop]
+    rcases pull_cases s with (h | h) | ⟨v, h, hl⟩
+    · cases hp : pull s with
+      | mk s1 r => rw [hp] at h; simp only at h; subst h; simp
+    · cases hp : pull s with
+      | mk s1 r => rw [hp] at h; simp only at h; subst h; simp
+    · cases hp : pull s with
+      | mk s1 r =>
+        rw [hp] at h hl; simp only at h hl; subst h
+        cases v with
+        | endMarker => exact ih n (i + 1) s1 ret (by omega)
+        | val x =>
+          simp only []
+          split
+          · simp
+          · exact ih n (i + 1) s1 _ (by omega)
